@@ -1,5 +1,6 @@
 """C19 - value types never panic and clones are independent."""
 import re
+from ..absint import owning_functions
 from . import panic_rules as P
 from .. import panics
 
@@ -116,10 +117,10 @@ def r19_3_error_code_invariant(ctx, prog, rule="R19.3"):
         for blk in b.blocks:
             for s in blk["stmts"]:
                 if s["k"] == "assign" and s["rv"]["k"] == "aggregate" and s["rv"].get("adt", "").endswith("types::ErrorCode"):
-                    makers.add(b.path)
+                    makers.update(owning_functions(prog, b))
                 if s["k"] == "assign" and any(e["k"] == "field" and e.get("name") == "error_code" and e.get("adt", "").endswith("types::ErrorCode") for e in s["place"]["p"]):
                     makers.add(b.path + " (field write)")
-    allowed = {"stun_rs::types::ErrorCode::new::{closure#0}", "<stun_rs::types::ErrorCode as stun_rs::Decode<'_>>::decode",
+    allowed = {"stun_rs::types::ErrorCode::new", "<stun_rs::types::ErrorCode as stun_rs::Decode<'_>>::decode",
                "<stun_rs::types::ErrorCode as std::clone::Clone>::clone"}
     ctx.ob(rule, "constructors", makers <= allowed and len(makers) >= 2, "ErrorCode values are built in %s" % sorted(x.split("::")[-1] + "@" + x.split("::")[-2] for x in makers))
     # decode builds its value through ErrorCode::new, so the invariant has a single gate
